@@ -215,6 +215,18 @@ def check_file(ctx, path, origin, root_idx, stored_override, rng, case, expect_f
                   message=f"len(referrer)={len(ds)}, expected {len(root_idx)}")
         if not ok_len:
             return
+        # what the client did with the freshly opened referrer before the judged reads, and
+        # the order in which the features are visited, vary from case to case (DESIGN 7.5)
+        from vmon.gen.touch import client_touch
+        pre = int(rng.integers(0, 5))
+        if pre == 1:
+            ds.features
+        elif pre == 2:
+            ds.features_loaded
+        elif pre == 3:
+            client_touch(rng, ds, list(expect_feats), ctx, p=0.5)
+        ctx.count(f"referrer_first_use[{pre}]")
+        expect_feats = [expect_feats[k] for k in rng.permutation(len(expect_feats))]
         for f in expect_feats:
             avail = f in ds
             ctx.check("c07.available", avail, lambda: dict(case, feature=f,
